@@ -80,7 +80,7 @@ impl Check for C18 {
                 let fs = SimFs::new(&io);
                 let _g = fs.install();
                 fs.put("/sim/src.lef", text.clone().into_bytes());
-                match guard(|| lef21::LefLibrary::open("/sim/src.lef")) {
+                match guard(|| lef21::LefLibrary::open(fs.sp("/sim/src.lef"))) {
                     Ok(Ok(l)) => l,
                     _ => {
                         out.probes.hit("lef_text_not_in_reader_image");
@@ -144,7 +144,7 @@ impl Check for C18 {
                 fs.plan(B_GDS, FilePlan { write: mk(&io, 3, bytes0.len() as u64, true), ..Default::default() });
                 let before = io.borrow().errors_returned.len();
                 let verbose = io.borrow_mut().ftape.chance(1, 3);
-                let o1 = ToMarkupOptions { gds: A_GDS.into(), fmt: fmt_name(fmt).into(), out: A_MK.into(), verbose };
+                let o1 = ToMarkupOptions { gds: fs.sp(A_GDS).into(), fmt: fmt_name(fmt).into(), out: fs.sp(A_MK).into(), verbose };
                 let r1 = guard(|| to_markup(&o1).map_err(|e| e.to_string()));
                 let fired1 = io.borrow().errors_returned.len() > before;
                 let ok1 = match r1 {
@@ -166,7 +166,7 @@ impl Check for C18 {
                     Ok(Ok(())) => true,
                 };
                 if ok1 && out.violation.is_none() {
-                    let o2 = FromMarkupOptions { gds: B_GDS.into(), fmt: fmt_name(fmt).into(), inp: A_MK.into(), verbose };
+                    let o2 = FromMarkupOptions { gds: fs.sp(B_GDS).into(), fmt: fmt_name(fmt).into(), inp: fs.sp(A_MK).into(), verbose };
                     let before2 = io.borrow().errors_returned.len();
                     let r2 = guard(|| from_markup(&o2).map_err(|e| e.to_string()));
                     let fired2 = io.borrow().errors_returned.len() > before2;
@@ -285,7 +285,7 @@ fn ser_files<T: serde::Serialize + serde::de::DeserializeOwned + layout21utils::
         let before = io.borrow().errors_returned.len();
         // either entry point: SerializationFormat::save or the SerdeFile trait method
         let via_trait = io.borrow_mut().ftape.chance(1, 2);
-        let saved = match guard(|| if via_trait { layout21utils::SerdeFile::save(lib, L_MK, fmt) } else { fmt.save(lib, L_MK) }) {
+        let saved = match guard(|| if via_trait { layout21utils::SerdeFile::save(lib, fs.sp(L_MK), fmt) } else { fmt.save(lib, fs.sp(L_MK)) }) {
             Err(p) => {
                 out.violation = Some(panic_violation("SerializationFormat::save", &p, art(Value::Null)));
                 false
@@ -306,7 +306,7 @@ fn ser_files<T: serde::Serialize + serde::de::DeserializeOwned + layout21utils::
                 out.probes.hit("save_error_swallowed_call_returned_ok");
             }
             // ack => durable: the stored file must load back equal (read side fault-free here)
-            match guard(|| if via_trait { <T as layout21utils::SerdeFile>::open(L_MK, fmt) } else { fmt.open::<T>(L_MK) }) {
+            match guard(|| if via_trait { <T as layout21utils::SerdeFile>::open(fs.sp(L_MK), fmt) } else { fmt.open::<T>(fs.sp(L_MK)) }) {
                 Err(p) => out.violation = Some(panic_violation("SerializationFormat::open", &p, art(Value::Null))),
                 Ok(Err(e)) => out.violation = Some(v(if fired { "ack-not-durable" } else { "load-error" }, format!("{}:save-open/{}", fk, if fired { wlabel } else { "open" }), format!("save returned Ok but the stored file does not load (disk reported an error: {}): {}", fired, truncate(&e.to_string(), 300)), json!({"stored_len": fs.get(L_MK).map(|b| b.len()), "text_len": text.len()}))),
                 Ok(Ok(l2)) => {
@@ -319,7 +319,7 @@ fn ser_files<T: serde::Serialize + serde::de::DeserializeOwned + layout21utils::
             if out.violation.is_none() && cfg != Cfg::FaultFree {
                 fs.plan(L_MK, FilePlan { read: rpol.clone(), ..Default::default() });
                 let before = io.borrow().errors_returned.len();
-                match guard(|| fmt.open::<T>(L_MK)) {
+                match guard(|| fmt.open::<T>(fs.sp(L_MK))) {
                     Err(p) => out.violation = Some(panic_violation("SerializationFormat::open(scheduled)", &p, art(Value::Null))),
                     Ok(Err(e)) => {
                         let fired = io.borrow().errors_returned.len() > before;
